@@ -5,7 +5,22 @@ N1  `if not C: A else: B`            ->  `if C: B else: A`            (only when
 N2  `t = E` directly followed by `return t`, every binding and every read of t in the function being such a pair
                                      ->  `return E`
 
-Both rewrites are semantics preserving; node positions are kept (the rewritten return keeps the position
+N3  `x: T = E` -> `x = E`; a bare annotation `x: T` is dropped           (annotations carry no behaviour)
+N4  statement `yield from E`  ->  `for _yf in E: yield _yf`                 (for the analyses, which only follow what is yielded)
+N5  `dict((k, v) for ...)` / `dict([(k, v) for ...])`  ->  `{k: v for ...}`
+N6  `except BaseException:` -> bare `except:`                               (same set of exceptions)
+N8  `x = A if C else B` -> `if C: x = A` / `else: x = B`; `return A if C else B` likewise   (same evaluation order)
+N9  a local bound exactly once to a call-free expression over names that are never re-bound in the function
+    (`cls = exc.__class__`, `write = self.file.write`, `key = K`) is replaced by that expression at its uses and the
+    binding dropped; temporaries holding the result of a call are NOT touched (where a call happens is behaviour)
+N10 `t = E` (E may contain calls) directly followed by a statement whose header expression (if-test, return value,
+    assigned value, expression statement) reads t exactly once, before any call of that header is made, t being read
+    nowhere else: E is substituted there and the binding dropped (evaluation order is unchanged)
+N7  (Program level, propagate_constants) a name that resolves to a module-level constant of the package bound exactly
+    once to a str/bytes/number/bool/None literal is replaced by that literal, so that a literal and a named
+    constant with the same value are the same thing to every rule.
+
+All rewrites are semantics preserving as far as the analyses are concerned; node positions are kept (the rewritten return keeps the position
 of the original assignment's value so reports still point at the computing line)."""
 
 import ast
@@ -116,7 +131,329 @@ def _n2(tree):
             _n2_function(f)
 
 
+
+class _N3456(ast.NodeTransformer):
+    def visit_AnnAssign(self, node):
+        self.generic_visit(node)
+        if node.value is None:
+            return None
+        new = ast.Assign(targets=[node.target], value=node.value)
+        return ast.copy_location(new, node)
+
+    def visit_Expr(self, node):
+        self.generic_visit(node)
+        if isinstance(node.value, ast.YieldFrom):
+            tgt = ast.Name(id="_yf", ctx=ast.Store())
+            y = ast.Expr(value=ast.Yield(value=ast.Name(id="_yf", ctx=ast.Load())))
+            loop = ast.For(target=tgt, iter=node.value.value, body=[y], orelse=[])
+            for x in (tgt, y, y.value, y.value.value, loop):
+                ast.copy_location(x, node)
+            return loop
+        return node
+
+    def visit_Call(self, node):
+        self.generic_visit(node)
+        if isinstance(node.func, ast.Name) and node.func.id == "dict" and len(node.args) == 1 and not node.keywords \
+                and isinstance(node.args[0], (ast.GeneratorExp, ast.ListComp)) and isinstance(node.args[0].elt, ast.Tuple) and len(node.args[0].elt.elts) == 2:
+            c = node.args[0]
+            new = ast.DictComp(key=c.elt.elts[0], value=c.elt.elts[1], generators=c.generators)
+            return ast.copy_location(new, node)
+        return node
+
+    def visit_ExceptHandler(self, node):
+        self.generic_visit(node)
+        if isinstance(node.type, ast.Name) and node.type.id == "BaseException" and node.name is None:
+            node.type = None
+        return node
+
+    def _fix_empty(self, node):
+        for field in ("body", "orelse", "finalbody"):
+            v = getattr(node, field, None)
+            if isinstance(v, list) and field == "body" and not v:
+                p = ast.Pass()
+                ast.copy_location(p, node)
+                v.append(p)
+
+    def generic_visit(self, node):
+        super().generic_visit(node)
+        if isinstance(node, (ast.FunctionDef, ast.AsyncFunctionDef, ast.ClassDef, ast.If, ast.For, ast.While, ast.With, ast.Try, ast.ExceptHandler)):
+            self._fix_empty(node)
+        return node
+
+
+class _N8(ast.NodeTransformer):
+    def _split(self, node, make):
+        v = node.value
+        if isinstance(v, ast.IfExp):
+            a = make(v.body)
+            b = make(v.orelse)
+            new = ast.If(test=v.test, body=[a], orelse=[b])
+            for x in (a, b, new):
+                ast.copy_location(x, node)
+            return self.visit(new)
+        return node
+
+    def visit_Assign(self, node):
+        self.generic_visit(node)
+        return self._split(node, lambda val: ast.Assign(targets=[_copy(t) for t in node.targets], value=val))
+
+    def visit_Return(self, node):
+        self.generic_visit(node)
+        if node.value is None:
+            return node
+        return self._split(node, lambda val: ast.Return(value=val))
+
+    def visit_Lambda(self, node):
+        return node
+
+
+def _copy(t):
+    import copy
+    return copy.deepcopy(t)
+
+
+def _pure(e):
+    """call-free, side-effect-free to evaluate as far as the analyses care: names, constants, attribute chains,
+    subscripts/slices with pure parts, tuples of those"""
+    if isinstance(e, (ast.Name, ast.Constant)):
+        return True
+    if isinstance(e, ast.Attribute):
+        return _pure(e.value)
+    if isinstance(e, ast.Subscript):
+        # an index reads an existing object; a slice builds a new one each time it is evaluated
+        return not isinstance(e.slice, ast.Slice) and _pure(e.value) and _pure(e.slice)
+    if isinstance(e, ast.UnaryOp) and isinstance(e.op, ast.USub):
+        return _pure(e.operand)
+    return False
+
+
+def _n9_function(func):
+    import copy
+    names = _own_names(func)
+    stores, nested = {}, set()
+    for n, in_nested in names:
+        if in_nested:
+            nested.add(n.id)
+        elif not isinstance(n.ctx, ast.Load):
+            stores[n.id] = stores.get(n.id, 0) + 1
+    params = {a.arg for a in func.args.posonlyargs + func.args.args + func.args.kwonlyargs}
+    for a in (func.args.vararg, func.args.kwarg):
+        if a is not None:
+            params.add(a.arg)
+    declared = set()
+    for x in ast.walk(func):
+        if isinstance(x, (ast.Global, ast.Nonlocal)):
+            declared |= set(x.names)
+    # names bound by loops / with / except / comprehension targets / augmented assignment are never temporaries
+    special = set()
+    for x in ast.walk(func):
+        if isinstance(x, (ast.For, ast.AsyncFor, ast.comprehension)):
+            special |= {y.id for y in ast.walk(x.target) if isinstance(y, ast.Name)}
+        elif isinstance(x, (ast.With, ast.AsyncWith)):
+            for it in x.items:
+                if it.optional_vars is not None:
+                    special |= {y.id for y in ast.walk(it.optional_vars) if isinstance(y, ast.Name)}
+        elif isinstance(x, ast.ExceptHandler) and x.name:
+            special.add(x.name)
+        elif isinstance(x, ast.AugAssign) and isinstance(x.target, ast.Name):
+            special.add(x.target.id)
+        elif isinstance(x, ast.NamedExpr) and isinstance(x.target, ast.Name):
+            special.add(x.target.id)
+    # attribute names / subscripted bases stored to anywhere in the function: an alias of such a location is a snapshot, not a synonym
+    stored_attrs, stored_sub_bases = set(), set()
+    for x in ast.walk(func):
+        if isinstance(x, ast.Attribute) and not isinstance(x.ctx, ast.Load):
+            stored_attrs.add(x.attr)
+        elif isinstance(x, ast.Subscript) and not isinstance(x.ctx, ast.Load):
+            stored_sub_bases.add(ast.unparse(x.value))
+        elif isinstance(x, ast.Call) and isinstance(x.func, ast.Name) and x.func.id in ("setattr", "delattr") and len(x.args) >= 2:
+            stored_attrs.add("*")
+
+    def location_stable(e):
+        for y in ast.walk(e):
+            if isinstance(y, ast.Attribute) and (y.attr in stored_attrs or "*" in stored_attrs):
+                return False
+            if isinstance(y, ast.Subscript) and ast.unparse(y.value) in stored_sub_bases:
+                return False
+        return True
+
+    def loads_in(nodes, t):
+        k = 0
+        for nd in nodes:
+            for y in ast.walk(nd):
+                if isinstance(y, ast.Name) and y.id == t and isinstance(y.ctx, ast.Load):
+                    k += 1
+        return k
+    total_loads = {}
+    for n, in_nested in names:
+        if not in_nested and isinstance(n.ctx, ast.Load):
+            total_loads[n.id] = total_loads.get(n.id, 0) + 1
+
+    class Sub(ast.NodeTransformer):
+        def __init__(self, t, value):
+            self.t, self.value = t, value
+
+        def visit_Name(self, node):
+            if isinstance(node.ctx, ast.Load) and node.id == self.t:
+                return ast.copy_location(copy.deepcopy(self.value), node)
+            return node
+
+        def visit_FunctionDef(self, node):
+            return node
+
+        visit_AsyncFunctionDef = visit_Lambda = visit_ClassDef = visit_FunctionDef
+
+    def fix_block(stmts):
+        """a binding `t = <pure>` in this statement list all of whose reads lie in the statements after it in the same list"""
+        i = 0
+        while i < len(stmts):
+            st = stmts[i]
+            if isinstance(st, ast.Assign) and len(st.targets) == 1 and isinstance(st.targets[0], ast.Name):
+                t = st.targets[0].id
+                if stores.get(t) == 1 and t not in params and t not in nested and t not in declared and t not in special and _pure(st.value) \
+                        and not isinstance(st.value, ast.Constant) and location_stable(st.value):
+                    free = {y.id for y in ast.walk(st.value) if isinstance(y, ast.Name)}
+                    if t not in free and all(stores.get(y, 0) == 0 for y in free) and total_loads.get(t, 0) == loads_in(stmts[i + 1:], t) and total_loads.get(t, 0) > 0:
+                        for j in range(i + 1, len(stmts)):
+                            stmts[j] = Sub(t, st.value).visit(stmts[j])
+                        del stmts[i]
+                        continue
+            i += 1
+        if not stmts:
+            stmts.append(ast.copy_location(ast.Pass(), func))
+
+    def blocks(node):
+        for x in ast.walk(node):
+            if x is not func and isinstance(x, (ast.FunctionDef, ast.AsyncFunctionDef, ast.ClassDef, ast.Lambda)):
+                continue
+            for field in ("body", "orelse", "finalbody"):
+                v = getattr(x, field, None)
+                if isinstance(v, list) and v and isinstance(v[0], ast.stmt):
+                    yield v
+            if isinstance(x, ast.ExceptHandler):
+                yield x.body
+    def header(st):
+        if isinstance(st, ast.If):
+            return "test"
+        if isinstance(st, (ast.Return, ast.Expr)) and st.value is not None:
+            return "value"
+        if isinstance(st, (ast.Assign, ast.AugAssign)):
+            return "value"
+        return None
+
+    def fix_adjacent(stmts):
+        i = 0
+        while i + 1 < len(stmts):
+            a, b = stmts[i], stmts[i + 1]
+            if isinstance(a, ast.Assign) and len(a.targets) == 1 and isinstance(a.targets[0], ast.Name) and header(b):
+                t = a.targets[0].id
+                h = getattr(b, header(b))
+                if stores.get(t) == 1 and t not in params and t not in nested and t not in declared and t not in special and total_loads.get(t, 0) == 1 \
+                        and not any(isinstance(y, (ast.Yield, ast.YieldFrom, ast.Await)) for y in ast.walk(a.value)):
+                    uses = [y for y in ast.walk(h) if isinstance(y, ast.Name) and y.id == t and isinstance(y.ctx, ast.Load)]
+                    # the targets of an assignment are evaluated after its value: fine
+                    if len(uses) == 1:
+                        u = uses[0]
+                        upos = (u.lineno, u.col_offset)
+                        inside_other_scope = any(isinstance(y, (ast.Lambda, ast.ListComp, ast.SetComp, ast.DictComp, ast.GeneratorExp, ast.IfExp)) and any(z is u for z in ast.walk(y)) for y in ast.walk(h))
+                        early_call = False
+                        for y in ast.walk(h):
+                            if isinstance(y, (ast.Call, ast.NamedExpr)) and not any(z is u for z in ast.walk(y)) and (y.lineno, y.col_offset) < upos:
+                                early_call = True
+                        # short-circuit operators: t must be in the first operand to be evaluated unconditionally
+                        for y in ast.walk(h):
+                            if isinstance(y, ast.BoolOp) and any(z is u for z in ast.walk(y)) and not any(z is u for z in ast.walk(y.values[0])):
+                                early_call = True
+                        if not inside_other_scope and not early_call:
+                            setattr(b, header(b), Sub(t, a.value).visit(h))
+                            del stmts[i]
+                            total_loads[t] = 0
+                            continue
+            i += 1
+
+    for _round in range(3):
+        for v in list(blocks(func)):
+            fix_block(v)
+        for v in list(blocks(func)):
+            fix_adjacent(v)
+
+
+def _n9(tree):
+    for f in ast.walk(tree):
+        if isinstance(f, (ast.FunctionDef, ast.AsyncFunctionDef)):
+            _n9_function(f)
+
+
+SIMPLE = (str, bytes, int, float, bool, type(None))
+
+
+def propagate_constants(program):
+    """N7, run once all modules are indexed."""
+    declared_global = {}
+    for m in program.modules.values():
+        g = set()
+        for x in ast.walk(m.tree):
+            if isinstance(x, ast.Global):
+                g |= set(x.names)
+        declared_global[m] = g
+    cache = {}
+
+    def const_of(mod, name):
+        key = (mod, name)
+        if key not in cache:
+            cache[key] = None
+            vals = mod.assigns.get(name)
+            if vals and len(vals) == 1 and isinstance(vals[0], ast.AST) and name not in declared_global[mod]:
+                v = vals[0]
+                if isinstance(v, ast.Constant) and isinstance(v.value, SIMPLE):
+                    cache[key] = (v.value,)
+                elif isinstance(v, ast.Name):
+                    r = program.resolve_global(mod, v.id)
+                    if r and r[0] == "modvar":
+                        cache[key] = const_of(r[1], r[2])
+        return cache[key]
+
+    def rewrite(mod, func, node):
+        for field, old in ast.iter_fields(node):
+            if isinstance(old, list):
+                for i, x in enumerate(old):
+                    if isinstance(x, ast.AST):
+                        new = one(mod, func, x)
+                        if new is not x:
+                            old[i] = new
+            elif isinstance(old, ast.AST):
+                new = one(mod, func, old)
+                if new is not old:
+                    setattr(node, field, new)
+
+    def one(mod, func, x):
+        if isinstance(x, ast.Name) and isinstance(x.ctx, ast.Load):
+            try:
+                r = program.resolve_name(mod, func, x.id)
+            except Exception:
+                r = None
+            if r and r[0] == "modvar":
+                c = const_of(r[1], r[2])
+                if c is not None:
+                    return ast.copy_location(ast.Constant(value=c[0]), x)
+            return x
+        if isinstance(x, (ast.FunctionDef, ast.AsyncFunctionDef, ast.Lambda)):
+            f2 = mod.func_of_node.get(id(x)) if hasattr(mod, "func_of_node") else None
+            rewrite(mod, f2 if f2 is not None else func, x)
+            return x
+        rewrite(mod, func, x)
+        return x
+
+    for m in program.modules.values():
+        m.func_of_node = {id(f.node): f for f in m.funcs.values()}
+        rewrite(m, None, m.tree)
+
+
 def normalize(tree):
+    tree = _N3456().visit(tree)
+    tree = _N8().visit(tree)
+    _n9(tree)
     _n1(tree)
     _n2(tree)
+    ast.fix_missing_locations(tree)
     return tree
